@@ -357,9 +357,22 @@ func (g *G) RandComment() string {
 func (g *G) RandLiteral() string {
 	g.count("rand-literal")
 	q := g.R.Pick([]string{"'", "\""})
+	if g.R.Chance(1, 3) {
+		// multi-line literal made of line breaks, escaped quotes and filler; often unclosed
+		var sb strings.Builder
+		sb.WriteString(q)
+		n := 1 + g.R.Intn(6)
+		for i := 0; i < n; i++ {
+			sb.WriteString(g.R.Pick([]string{"\n", "\n", q + q, q + q, "x", " ", "ab", "\r\n"}))
+		}
+		if g.R.Chance(1, 2) {
+			sb.WriteString(q)
+		}
+		return sb.String()
+	}
 	b := g.body(g.R.Intn(6), "")
 	b = strings.ReplaceAll(b, q, q+q)
-	if g.R.Chance(1, 12) {
+	if g.R.Chance(1, 6) {
 		return q + b // unclosed
 	}
 	return q + b + q
